@@ -1,6 +1,6 @@
 (* C02 — property theorems (statements in full; proofs in Proofs*.v). *)
 From Coq Require Import List NArith Bool.
-From LTV.C02 Require Import Model ProofsA ProofsB ProofsC Proofs ProofsD ProofsE.
+From LTV.C02 Require Import Model ProofsA ProofsB ProofsC Proofs ProofsD ProofsE ProofsF.
 Import ListNotations.
 Local Open Scope N_scope.
 
@@ -198,10 +198,27 @@ Theorem reopen_resets : forall cs lay s, cfg_ok cs lay ->
 Proof. exact ProofsE.reopen_resets. Qed.
 Print Assumptions reopen_resets.
 
-(* REFUTED (real deviation, reported): File::completed_chunks() <= File::size_chunks() does not hold;
-   witness cs = 1, files 1,1,1, mark_completed(1); mark_completed(2) leaves file 2 at 2 of 1 *)
-Theorem file_completed_bounded_refuted :
-  exists cs lay ops, cfg_ok cs lay /\
-    ~ file_completed_bounded (mk_cfg cs lay) (fst (run (mk_cfg cs lay) (init_state (mk_cfg cs lay)) ops)).
-Proof. exact ProofsE.file_completed_bounded_refuted. Qed.
-Print Assumptions file_completed_bounded_refuted.
+
+(* per-file accounting (File::completed_chunks), after the repair 17569a5 of FileList::inc_completed:
+   [cir done f] = number of set bits of the completed bitfield inside f's piece range [f_r1, f_r2).
+   For every operation list in which raw bitfield edits (OpSetBit) are followed by update_completed /
+   re-open before the counters are read: every file's counter is exactly that number, hence never
+   above File::size_chunks = f_r2 - f_r1 (0 for empty files). Both paths agree: mark_completed's
+   inc_completed walk and update_completed's recount loop with its re-used iterator. *)
+Theorem file_completed_exact : forall cs lay, cfg_ok cs lay -> forall ops1 ops2,
+  (ops1 = [] \/ exists ops0, ops1 = ops0 ++ [OpUpdate] \/ ops1 = ops0 ++ [OpReopen]) ->
+  Forall (fun o => forall i, o <> OpSetBit i) ops2 ->
+  let c := mk_cfg cs lay in
+  let s := fst (run c (init_state c) (ops1 ++ ops2)) in
+  s_fcomp s = map (cir (s_done s)) (c_files c) /\
+  Forall2 (fun f x => x <= f_r2 f - f_r1 f) (c_files c) (s_fcomp s).
+Proof. exact ProofsF.file_completed_exact. Qed.
+Print Assumptions file_completed_exact.
+
+(* update_completed from ANY counters: exactly the recount, never an internal_error *)
+Theorem update_completed_exact : forall cs lay, cfg_ok cs lay -> forall done fc,
+  length fc = length (c_files (mk_cfg cs lay)) ->
+  N.of_nat (length done) = size_chunks (mk_cfg cs lay) ->
+  update_completed (mk_cfg cs lay) done fc = (map (cir done) (c_files (mk_cfg cs lay)), true).
+Proof. exact ProofsF.update_completed_exact. Qed.
+Print Assumptions update_completed_exact.
